@@ -125,15 +125,18 @@ def seq_line(cid, algo, rows, keys):
     n = len(rows)
     return " ".join([cid, "seq", algo, str(n)] + graph_toks(rows) + wtoks(keys))
 
-def par_line(cid, algo, tap, rows, part, keys):
+def par_line(cid, algo, tap, rows, part, keys, weak=()):
+    """weak: couplings (i, c) of A that are not in the strength graph; the driver then builds S on A's column maps and
+    communicator (kind parw), as A->strength() does"""
     n = len(rows); P = len(part)
     fr = [0]
     for k in part: fr.append(fr[-1] + k)
     trip = []
     for i, r in enumerate(rows):
         for c in r: trip += [str(i), str(c), "1"]
-    nnz = sum(len(r) for r in rows)
-    return " ".join([cid, "par", algo, str(tap), str(n), str(n), str(P)] + [str(x) for x in fr] + [str(x) for x in fr]
+    for (i, c) in weak: trip += [str(i), str(c), "1/4"]
+    nnz = sum(len(r) for r in rows) + len(weak)
+    return " ".join([cid, "parw" if weak else "par", algo, str(tap), str(n), str(n), str(P)] + [str(x) for x in fr] + [str(x) for x in fr]
                     + [str(nnz)] + trip + wtoks(keys))
 
 def check_line(cid, rs, rows, labels):
@@ -141,10 +144,11 @@ def check_line(cid, rs, rows, labels):
 
 # ------------------------------------------------------------------ generation
 class Case:
-    __slots__ = ("cid", "kind", "algo", "tap", "rows", "part", "keys", "tag", "line")
-    def __init__(self, cid, kind, algo, rows, keys, part=None, tap=0, tag=""):
+    __slots__ = ("cid", "kind", "algo", "tap", "rows", "part", "keys", "tag", "line", "weak")
+    def __init__(self, cid, kind, algo, rows, keys, part=None, tap=0, tag="", weak=()):
         self.cid, self.kind, self.algo, self.rows, self.keys, self.part, self.tap, self.tag = cid, kind, algo, rows, keys, part, tap, tag
-        self.line = seq_line(cid, algo, rows, keys) if kind == "seq" else par_line(cid, algo, tap, rows, part, keys)
+        self.weak = tuple(weak)
+        self.line = seq_line(cid, algo, rows, keys) if kind == "seq" else par_line(cid, algo, tap, rows, part, keys, self.weak)
 
 def gen_cases(ctx):
     rng = ctx.rng
@@ -155,9 +159,15 @@ def gen_cases(ctx):
     def add_seq(rows, keys, tag, algos=SEQ_ALGOS):
         for a in algos: cases.append(Case(cid(), "seq", a, rows, keys, tag=tag))
     def add_par(rows, keys, part, tag, algos=PAR_ALGOS, taps=(0, 1)):
+        n = len(rows)
         for a in algos:
             for tp in taps:
-                cases.append(Case(cid(), "par", a, rows, keys, part=part, tap=tp, tag=tag))
+                weak = ()
+                if len(part) >= 2 and n >= 3 and rng.random() < 0.3:
+                    # weak couplings of A outside the strength graph: the communicator of S then reaches columns without a strong entry
+                    cand = [(i, c) for i in range(n) for c in range(n) if c != i and c not in rows[i]]
+                    weak = tuple(rng.sample(cand, min(len(cand), rng.randint(1, max(1, n // 2)))))
+                cases.append(Case(cid(), "par", a, rows, keys, part=part, tap=tp, tag=tag + ("+wide" if weak else ""), weak=weak))
     thorough = not ctx.quick()
 
     # 1. exhaustive small digraphs x all weight orders (sequential)
@@ -276,12 +286,12 @@ def parse_model_pst(toks):
         k = int(toks[i]); views.append([int(x) for x in toks[i + 1:i + 1 + k]]); i += 1 + k
     return labs, views
 
-def expected_colmaps(rows, part):
+def expected_colmaps(rows, part, weak=()):
     out = []; lo = 0
     for k in part:
         cols = set()
         for i in range(lo, lo + k):
-            for c in rows[i]:
+            for c in list(rows[i]) + [c2 for (i2, c2) in weak if i2 == i]:
                 if not (lo <= c < lo + k): cols.add(c)
         out.append(sorted(cols)); lo += k
     return out
@@ -380,6 +390,11 @@ def judge(ctx, c, impl, model, chk, glabels):
     if n and has_edge: ctx.sample(c.line)
     sig0 = ("%s" if c.kind == "seq" else "%s_dist") % c.algo
     ri = impl.get(c.cid); rm = model.get(c.cid)
+    if c.kind == "par" and ri:
+        st = [v for k, v in ri if k == "STRAY"]
+        if st and any(t not in ("0",) and not t.startswith("@") for t in st[0]):
+            ctx.signal("O", sig0 + ":stray_messages" + (":wide" if c.weak else ""), "messages were sent that no rank received (left in the queue for a later "
+                       "operation with the same tag): per rank %s" % " ".join(st[0]), case=c.line)
     labs = glabels.get(c.cid)
     if not ri or labs is None or len(labs) != n:
         if not ri:
@@ -411,7 +426,7 @@ def judge(ctx, c, impl, model, chk, glabels):
     if c.kind == "par":
         d = dict((k, v) for k, v in ri)
         ranks = parse_pst(d["PST"])
-        cm = expected_colmaps(c.rows, c.part)
+        cm = expected_colmaps(c.rows, c.part, c.weak)
         for r, (k, l, v) in enumerate(ranks):
             if [g for g, _ in v] != cm[r]:
                 ctx.signal("K", sig0 + ":colmap", "rank %d off_proc_column_map %s expected %s" % (r, [g for g, _ in v], cm[r]), case=c.line)
@@ -440,6 +455,11 @@ def judge(ctx, c, impl, model, chk, glabels):
             ctx.signal("K", sig0 + ":model", "model produced no labels: %s" % (rm,), case=c.line)
         elif [int(x) for x in rm[0][1]] != labs:
             ctx.signal("K", sig0, "model %s implementation %s" % (" ".join(rm[0][1]), labs), case=c.line)
+    elif c.algo in MODELLED_PAR and c.weak and c.algo in ("rs", "hmis", "falgout"):
+        # the first pass of these routines treats every row named in the communicator's send lists as a boundary row; with the
+        # wider communicator of A that set is larger than the strength graph's own boundary, which is all the model knows:
+        # judged by the oracles only (totality, views, fine points have a coarse neighbour)
+        ctx.count("wide_comm_oracle_only")
     elif c.algo in MODELLED_PAR:
         ctx.compared += 1
         if not rm or rm[0][0] != "PST":
@@ -449,7 +469,8 @@ def judge(ctx, c, impl, model, chk, glabels):
             if ml != labs:
                 ctx.signal("K", sig0, "model %s implementation %s" % (ml, labs), case=c.line)
             else:
-                iv = [[s for _, s in v] for (_, _, v) in parse_pst(dict((k, v) for k, v in ri)["PST"])]
+                strong = expected_colmaps(c.rows, c.part)       # the model's views are those of the strength graph's own columns
+                iv = [[s for g, s in v if g in strong[r_]] for r_, (_, _, v) in enumerate(parse_pst(dict((k, v) for k, v in ri)["PST"]))]
                 if iv != mv:
                     ctx.signal("K", sig0 + ":views", "model views %s implementation views %s" % (mv, iv), case=c.line)
 
@@ -468,8 +489,10 @@ def case_from_line(line):
     tap = int(t[3]); n = int(t[4]); P = int(t[6]); p = 7
     fr = [int(x) for x in t[p:p + P + 1]]; p += 2 * (P + 1)
     nnz = int(t[p]); p += 1
-    rows = [[] for _ in range(n)]
+    rows = [[] for _ in range(n)]; weak = []
     for _ in range(nnz):
-        rows[int(t[p])].append(int(t[p + 1])); p += 3
+        if t[p + 2] == "1": rows[int(t[p])].append(int(t[p + 1]))
+        else: weak.append((int(t[p]), int(t[p + 1])))
+        p += 3
     keys = [frac(x) for x in t[p:p + n]]
-    return Case(cid, "par", algo, rows, keys, part=tuple(fr[k + 1] - fr[k] for k in range(P)), tap=tap, tag="replay")
+    return Case(cid, "par", algo, rows, keys, part=tuple(fr[k + 1] - fr[k] for k in range(P)), tap=tap, tag="replay", weak=weak)
